@@ -7,8 +7,8 @@ From DtlsV Require Import Lib.Bytes Gen.Generated Rec.Window State.C19Export Sta
 Open Scope N_scope.
 
 (* The round trip ConnectionState -> MarshalBinary -> UnmarshalBinary -> Resume is defined exactly
-   on the states with a suite known to ciphersuite.ForID(id, nil), a version other than 1.3 and a
-   sequence counter for the current local epoch. *)
+   on the states with a suite known to ciphersuite.ForID(id, nil), a version other than 1.3, a
+   sequence counter for the current local epoch, a local epoch other than 0 and a master secret. *)
 Theorem C19_import_export_defined_iff :
   forall s, (exists s', import_export s = Some s') <-> exportable s.
 Proof. exact import_export_defined_iff. Qed.
@@ -133,6 +133,17 @@ Theorem C19_data_flows_after_import :
 Proof. exact data_flows_after_import. Qed.
 Print Assumptions C19_data_flows_after_import.
 
+(* A state captured before the keys were switched on (local epoch 0 or no master secret: the
+   State a VerifyConnection callback receives, or a corrupted epoch) is refused by the import;
+   every imported state has a non-zero local epoch and a master secret. *)
+Theorem C19_pre_keys_refused :
+  (forall p, p_local_epoch p = 0 \/ p_master p = [] -> gen_internal p = None) /\
+  (forall s, i_local_epoch s = 0 \/ i_master s = [] -> import_export s = None) /\
+  (forall p x, gen_internal p = Some x -> i_local_epoch x <> 0 /\ i_master x <> []) /\
+  (exists z p, s_local_epoch z = 0 /\ unmarshal z = Some p /\ gen_internal p = None).
+Proof. exact pre_keys_refused. Qed.
+Print Assumptions C19_pre_keys_refused.
+
 (* DTLS 1.3 is refused at every entry point ... *)
 Theorem C19_v13_refused :
   (forall s, i_version s = v13 -> gen_state s = Refused) /\
@@ -214,7 +225,10 @@ Definition C19_example_state : istate :=
       true (true, true) true (3, 5).
 
 Example C19_example_exportable : exportable C19_example_state.
-Proof. split; [exists 49195; split; reflexivity|]. split; [discriminate|vm_compute; reflexivity]. Qed.
+Proof.
+  split; [exists 49195; split; reflexivity|]. split; [discriminate|]. split; [vm_compute; reflexivity|].
+  split; discriminate.
+Qed.
 
 Example C19_example_roundtrip :
   match import_export C19_example_state with
